@@ -41,11 +41,17 @@ Valid(c) ==
   /\ c.quantis => c.engines = "both"                     \* QuanTIS runs [0-] with its own engine, `engine0`
   /\ c.lm1 # None => c.lm1 < Pos(c.intf[1])
 
+(* Fields the property does not list among the reasons to reject, but which an accepted configuration must survive:          *)
+(* `pattern` (output.pattern, the worker-timing file whose header is written at set-up) and `ee`, an explicit                 *)
+(* simulation.ensemble_engines list: absent ("default"), one entry per ensemble ("full") or one entry too few ("short").      *)
+(* They are varied on top of otherwise plain configurations only (no cap, no lambda_-1, shooting everywhere, engine defined). *)
+Plain(wf, cap, lm1, eng, q) == wf = 0 /\ cap = None /\ lm1 = None /\ eng = "main" /\ q = FALSE
 Init == /\ done = FALSE /\ verdict = "?"
         /\ \E il \in IntfLists, w \in WorkerVals, ml \in MoveLens, wf \in {0, 2, 3}, cap \in CapVals, lm1 \in Lm1Vals,
-              eng \in {"none", "main", "both"}, q \in BOOLEAN :
-             cfg = [intf |-> il, workers |-> w, moves |-> MovesOf(ml, wf), cap |-> cap, lm1 |-> lm1,
-                    engines |-> eng, quantis |-> q]
+              eng \in {"none", "main", "both"}, q \in BOOLEAN, pat \in BOOLEAN, ee \in {"default", "full", "short"} :
+             /\ (pat \/ ee # "default") => Plain(wf, cap, lm1, eng, q)
+             /\ cfg = [intf |-> il, workers |-> w, moves |-> MovesOf(ml, wf), cap |-> cap, lm1 |-> lm1,
+                       engines |-> eng, quantis |-> q, pattern |-> pat, ee |-> ee]
 Apply == /\ ~done /\ done' = TRUE
          /\ verdict' = IF Valid(cfg) THEN "free" ELSE "reject"
          /\ UNCHANGED cfg
